@@ -444,12 +444,12 @@ pub fn run(rep: &mut Report) {
     let deep = !rep.quick();
     let q = false;
     let leap = load();
-    rep.rule = "built-in table, reverse iteration, indexing and the file provider against the IERS list parsed from data/leap-seconds.list and naif0012.txt; UTC and TAI instants: every whole second from -45 s to +85 s around each of the 28 IERS and 14 SOFA entries x sub-second offsets {0, 1 ns, 1/2 s, 1 s - 1 ns}, windows of every nanosecond round each entry, the duration lattice within +-10 500 years; stateright BFS over sequences mixing conversions among UTC/TAI/GPST/TT with +- steps from states next to four table entries; providers: files written for every prefix of the IERS list (0..28 entries) and 5 format variants x the instants x scales. Oracle: table lookup on integers; TAI->UTC defined as the inverse of UTC->TAI, inserted intervals are don't-cares for the value. Non-trivial = within 90 s of an entry.".into();
+    rep.rule = "built-in table, reverse iteration, indexing and the file provider against the IERS list parsed from data/leap-seconds.list and naif0012.txt; UTC and TAI instants: every whole second from -45 s to +85 s around each of the 28 IERS and 14 SOFA entries x sub-second offsets {0, 1 ns, 1/2 s, 1 s - 1 ns}, windows of every nanosecond round each entry, the duration lattice within +-10 500 years; stateright BFS over sequences mixing conversions among UTC/TAI/GPST/TT with +- steps from states next to four table entries; providers: files written for every prefix of the IERS list (0..28 entries) and 5 format variants x the instants x scales. Oracle: table lookup on integers; TAI->UTC defined as the inverse of UTC->TAI, inside an inserted interval only the two holding values are accepted (the current convention is known finding D37). Non-trivial = within 90 s of an entry.".into();
     rep.assumptions = vec!["the two shipped data files agree with each other and with the 28-entry digest in the harness (checked at start-up; a mismatch is a machinery error)".into()];
     sweep(rep, "c06.table", 3, |i, out| j_table(i, &leap, out));
     let lw = Some((-45i64, 85i64));
-    let mut utc = lattice::el(TimeScale::UTC, 8, lw);
-    let mut tai = lattice::el(TimeScale::TAI, 8, lw);
+    let mut utc = lattice::el(TimeScale::UTC, if deep { 64 } else { 8 }, lw);
+    let mut tai = lattice::el(TimeScale::TAI, if deep { 64 } else { 8 }, lw);
     // every nanosecond within +-W of each entry (UTC side) and of each entry's TAI instant
     let w: i128 = if deep { 30_000 } else { 3000 };
     for (ts, d) in &leap.entries {
